@@ -63,6 +63,20 @@ CHECKS = {
    note="both ids on every line, one seqid/strand per gene; inputs sampled",
    tech="deterministic simulation: seeded GTF imports with restart and temp-file fault injection vs inference model",
    ref="DESIGN.md §5 C03"),
+ "C04": dict(level="exploration",
+   text="The id counters live in the importer, the handle and the autoincrements table; seeded imports under 20 id_spec forms followed by "
+        "updates with reopen/restart/gc between them; every key (input order), every look-up, FeatureNotFoundError for absent keys, "
+        "rejection of multi-valued id attributes and continued numbering are compared with a model of the derivation rule.",
+   note="collisions resolved by create_unique; explicit ids of the form <base>_<n> not generated; inputs sampled",
+   tech="deterministic simulation: seeded import/update/reopen/restart histories vs id-derivation model",
+   ref="DESIGN.md §5 C04"),
+ "C05": dict(level="exploration",
+   text="Histories of colliding arrivals across create_db and update under all five strategies and force_merge_fields subsets, with "
+        "reopen/restart/gc between arrivals so that the duplicates table and counters come back from disk; features, attribute value "
+        "sets and Parent links compared with a model of the statement (conservation: nothing lost, nothing invented). GFF3 and GTF importers.",
+   note="value order in merged attributes open; ambiguous multi-candidate merges discarded; level-2 rows not compared after a link-changing replace",
+   tech="deterministic simulation: seeded collision histories with reopen/restart vs strategy model",
+   ref="DESIGN.md §5 C05"),
 }
 
 NA = {
